@@ -26,6 +26,8 @@ inline uint64_t node_digest_begin(int rule) { return dmix(0x6e6f6465ull, uint64_
 inline uint64_t node_digest_add(uint64_t h, uint64_t child) { return dmix(h, child); }
 inline uint64_t node_digest_end(uint64_t h, int n) { return dmix(h, 0xe0d00000ull | uint32_t(n)); }
 inline uint64_t empty_default_digest() { return 0xdefa017ull; }
+// value built from a REFERENCE to a term payload (functor returning a reference to its parameter): lexeme only
+inline uint64_t tokref_digest(std::string_view lex) { uint64_t h = node_digest_begin(-3); h = node_digest_add(h, leaf_digest(lex, 0, 0)); return node_digest_end(h, 1); }
 inline uint64_t list_digest_begin() { return 0x6c697374ull; }
 inline uint64_t list_digest_add(uint64_t h, uint64_t elem) { return dmix(h, elem); }
 
